@@ -70,13 +70,14 @@ def eval_case(job):
         res['spec_exc'] = f'{type(e).__name__}: {e}'
         return res
     res['impl'] = {}
-    for caching in opts.get('caching', (False, True)):
+    for caching, ambient in [(c, a) for c in opts.get('caching', (False, True)) for a in opts.get('ambients', (None,))]:
         with CacheProbe() as probe:
             tree = []
-            outs = impl.run_case(case, caching=caching, evaluations=opts.get('evals', 2), tree_out=tree)
+            outs = impl.run_case(case, caching=caching, evaluations=opts.get('evals', 2), tree_out=tree,
+                                 ambient=ambient)
             if tree:
                 res['tree'] = tree[0]
-        key = 'on' if caching else 'off'
+        key = ('on' if caching else 'off') + (('/' + ambient) if ambient else '')
         rendered = []
         for out in outs:
             if out[0] == 'rows':
